@@ -34,6 +34,9 @@ pub struct SessionCase {
     pub release_seed: u64,
     /// release this many handlers before sending the interrupt
     pub release_early: u8,
+    /// bit i set: the handler of connection i panics (inside its future, after it was released) instead of answering
+    #[serde(default)]
+    pub panic_mask: u8,
 }
 
 // ---------------------------------------------------------------- part 1: controller
@@ -364,10 +367,21 @@ pub fn child_main(port: u16) -> ! {
     }
     let rt = tokio::runtime::Builder::new_current_thread().enable_all().build().unwrap();
     rt.block_on(async move {
+        async fn boom(id: u32) -> String {
+            say(&format!("start {id}"));
+            loop {
+                if RELEASED.get().unwrap().lock().unwrap().contains(&id) {
+                    break;
+                }
+                tokio::time::sleep(Duration::from_millis(1)).await;
+            }
+            say(&format!("panicking {id}"));
+            panic!("handler {id} panics while its session is in flight")
+        }
         async fn whoami() -> String {
             format!("pid={}", std::process::id())
         }
-        let o = Ohkami::new(("/block/:id".GET(block), "/whoami".GET(whoami)));
+        let o = Ohkami::new(("/block/:id".GET(block), "/boom/:id".GET(boom), "/whoami".GET(whoami)));
         // `listening` is printed before the bind happens inside howl; the parent retries its connects
         say("listening");
         o.howl(("127.0.0.1", port)).await;
@@ -506,7 +520,8 @@ fn run_sessions(sc: &SessionCase, obs: &mut Obs) {
             }
         };
         let _ = s.set_read_timeout(Some(Duration::from_secs(10)));
-        let _ = s.write_all(format!("GET /block/{id} HTTP/1.1\r\nHost: t\r\n\r\n").as_bytes());
+        let route = if sc.panic_mask & (1 << id) != 0 { "boom" } else { "block" };
+        let _ = s.write_all(format!("GET /{route}/{id} HTTP/1.1\r\nHost: t\r\n\r\n").as_bytes());
         if !child.wait_line(&format!("start {id}"), Duration::from_secs(10)) {
             obs.fail("HARNESS-BUG c18-handler-did-not-start", format!("handler {id} did not start"));
             finish(&mut child);
@@ -574,6 +589,9 @@ fn run_sessions(sc: &SessionCase, obs: &mut Obs) {
         responses[id] = read_response(&mut conns, id);
     }
     for (id, r) in responses.iter().enumerate() {
+        if sc.panic_mask & (1 << id) != 0 {
+            continue; // a session whose handler panicked owes no response; it must only not keep `howl` from returning
+        }
         let ok = r.as_ref().and_then(|b| crate::oracle::http::parse_response(b, false).ok()).map_or(false, |p| p.status == 200 && p.body == format!("done {id}").as_bytes());
         if !ok {
             obs.fail("in-flight-session-cut-off", format!("session {id} was in flight at the interrupt but did not receive its complete response (got {:?}; events {:?})", r.as_ref().map(|b| String::from_utf8_lossy(b).into_owned()), child.seen));
@@ -584,9 +602,11 @@ fn run_sessions(sc: &SessionCase, obs: &mut Obs) {
     // howl must not return while a session is still open? The statement: "returns exactly when all sessions that
     // were in flight have finished" — a session finishes when its connection ends. Check before closing:
     child.drain();
-    if !open_conns.is_empty() && child.seen.iter().any(|l| l == "howl returned") {
+    // (sessions whose handler panicked have ended on the server side; their client sockets do not count)
+    let still_open = (0..before).filter(|id| sc.panic_mask & (1 << id) == 0).count();
+    if still_open > 0 && child.seen.iter().any(|l| l == "howl returned") {
         // keep-alive sessions are still open: returning now is early
-        obs.fail("howl-returned-before-sessions-finished", format!("`howl` returned although {} keep-alive session(s) were still open (events: {:?})", open_conns.len(), child.seen));
+        obs.fail("howl-returned-before-sessions-finished", format!("`howl` returned although {} keep-alive session(s) were still open (events: {:?})", still_open, child.seen));
     }
     open_conns.clear();
     let t0 = Instant::now();
@@ -640,7 +660,7 @@ impl Property for C18 {
     fn strategy(&self, _tier: Tier) -> BoxedStrategy<Case> {
         prop_oneof![
             5 => vec(prop::bool::weighted(0.3), 4..=24).prop_map(Case::Schedule),
-            1 => (0u8..7, 0u8..4, any::<u64>(), 0u8..3).prop_map(|(before, after, release_seed, release_early)| Case::Sessions(SessionCase { before, after, release_seed, release_early })),
+            1 => (0u8..7, 0u8..4, any::<u64>(), 0u8..3, prop_oneof![3 => Just(0u8), 2 => any::<u8>()]).prop_map(|(before, after, release_seed, release_early, panic_mask)| Case::Sessions(SessionCase { before, after, release_seed, release_early, panic_mask })),
         ]
         .boxed()
     }
